@@ -222,7 +222,11 @@ fn judge(cx: &Cx, c: &Compared, label: &str, cnt: &Cnt) {
 }
 
 fn run(cx: &Cx) {
-    let quick = cx.quick();
+    run_inner(cx, None)
+}
+
+fn run_inner(cx: &Cx, only: Option<&J>) {
+    let quick = cx.quick() && only.is_none();
     let build_failures = AtomicU64::new(0);
     let mut variants: Vec<Variant> = Vec::new();
     let exemplars: Vec<(&str, Schema)> = vec![("D(S1)", Schema::from_sdl(s1::SDL).unwrap()), ("chain", Schema::from_sdl(CHAIN_SDL).unwrap()), ("leaves", Schema::from_sdl(LEAF_SDL).unwrap())];
@@ -256,6 +260,21 @@ fn run(cx: &Cx) {
         }
     }
     let cnt = Cnt { not_doc: AtomicU64::new(0), invalid: AtomicU64::new(0), agree: AtomicU64::new(0), wrong_kind_cases: AtomicU64::new(0) };
+    if let Some(case) = only {
+        let label = case["schema"].as_str().unwrap_or("");
+        let Some(v) = variants.iter().find(|v| v.label == label) else { return cx.machinery_error(format!("schema variant {label:?} is not in the family any more")) };
+        match agv_common::casecheck::replay_fixed(&v.ir, &Target::Dynamic(&v.schema), case) {
+            CaseOutcome::Ran(c) => {
+                cx.eval();
+                println!(" query {}\n world {}\n expected data {}\n got {}", c.text, table_json(&c.table), c.expected_data_text(), c.obs.to_json());
+                judge(cx, &c, &v.label, &cnt);
+            }
+            CaseOutcome::Panic { msg, .. } => println!("panicked: {msg}"),
+            CaseOutcome::Machinery(m) => cx.machinery_error(m),
+            _ => println!("not a valid document"),
+        }
+        return;
+    }
     let nodes = if quick { 3 } else { 4 };
     let nvar = variants.len();
     // non-finite floats cannot be expressed as a dynamic `Value` (Number::from_f64 refuses them)
@@ -317,7 +336,10 @@ fn run(cx: &Cx) {
 }
 
 fn replay(case: &J) -> String {
-    format!("re-run the check; case = {case}")
+    let cx = Cx::scratch("C02", "exploration");
+    run_inner(&cx, Some(case));
+    cx.nontrivial_count(2);
+    cx.finish_scratch()
 }
 
 fn main() {
